@@ -2,7 +2,6 @@ package execution
 
 import (
 	"context"
-	"math"
 	"strings"
 	"time"
 
@@ -103,4 +102,6 @@ const (
 	MetadataMessageTypeWatermark MetadataMessageType = iota
 )
 
-var WatermarkMaxValue = time.Unix(0, math.MaxInt64)
+// WatermarkMaxValue is the largest representable time, so that flushing up to it really flushes everything.
+// (time.Unix(0, math.MaxInt64) is only the year 2262.)
+var WatermarkMaxValue = time.Unix(1<<63-62135596801, 999999999)
